@@ -73,16 +73,15 @@ class Scenario:
                     raw, size = data, len(data)
                     oid = hashlib.sha1(b"blob %d\0" % size + data).digest()
             elif k == "tree":
-                raw = b""
-                for mode, name, ref in o["entries"]:
-                    child = ref if isinstance(ref, bytes) else self.oids[ref]
-                    raw += b"%o %s\0%s" % (mode, name, child)
+                raw = b"".join(b"%o %s\0%s" % (mode, name, ref if isinstance(ref, bytes) else self.oids[ref])
+                               for mode, name, ref in o["entries"])      # (joined: appending in a loop is quadratic)
                 size = len(raw)
                 oid = hashlib.sha1(b"tree %d\0" % size + raw).digest()
             elif k == "commit":
-                raw = b"tree " + self.oids[o["tree"]].hex().encode() + b"\n"
+                up = (lambda h: h.upper()) if o.get("upper") else (lambda h: h)      # git reads header ids case-insensitively
+                raw = b"tree " + up(self.oids[o["tree"]].hex().encode()) + b"\n"
                 for p in o["parents"]:
-                    raw += b"parent " + self.oids[p].hex().encode() + b"\n"
+                    raw += b"parent " + up(self.oids[p].hex().encode()) + b"\n"
                 d = o.get("date", 1000000000)
                 raw += b"author A <a@example.com> %d +0000\ncommitter C <c@example.com> %d +0000\n" % (d, d)
                 raw += o.get("extra", b"")
@@ -98,7 +97,7 @@ class Scenario:
                 oid = hashlib.sha1(b"commit %d\0" % size + raw).digest()
             elif k == "tag":
                 t = self.objects[o["target"]]
-                raw = (b"object " + self.oids[o["target"]].hex().encode() + b"\ntype " + t["kind"].encode() +
+                raw = (b"object " + (self.oids[o["target"]].hex().upper() if o.get("upper") else self.oids[o["target"]].hex()).encode() + b"\ntype " + t["kind"].encode() +
                        b"\ntag " + o.get("name", b"v") + b"\ntagger T <t@example.com> 1000000000 +0000\n\n" +
                        o.get("msg", b"tag message\n"))
                 size = len(raw)
@@ -521,15 +520,16 @@ def gen_graph(rng, size="small", big_blobs=False):
         extra = b""
         if rng.random() < 0.2:
             extra = b"gpgsig -----BEGIN PGP SIGNATURE-----\n \n parent " + b"0" * 40 + b"\n -----END PGP SIGNATURE-----\n"
-        msg = rng.choice([b"m\n", b"longer message\n\nwith body\n", b"x" * rng.randrange(1, 300) + b"\n"])
+        msg = rng.choice([b"m\n", b"longer message\n\nwith body\n", b"x" * rng.randrange(1, 300) + b"\n",
+                          b"written with CRLF\r\n\r\n" + b"line\r\n" * rng.randrange(1, 60), b"lone CR\r and NUL-free\r\n"])
         quoted = [rng.choice(commits)] if commits and rng.random() < 0.12 else []
         commits.append(s.add({"kind": "commit", "tree": rng.choice(trees), "parents": parents, "date": date,
-                              "extra": extra, "msg": msg, "quoted": quoted}))
+                              "extra": extra, "msg": msg, "quoted": quoted, "upper": rng.random() < 0.08}))
     tags = []
     for _ in range(rng.choice([0, 0, 1, 2, 4])):
         pool = commits + trees[:1] + blobs[:1] + tags + tags
         tags.append(s.add({"kind": "tag", "target": rng.choice(pool), "name": b"v%d" % len(tags),
-                           "msg": b"t" * rng.randrange(1, 50) + b"\n"}))
+                           "msg": b"t" * rng.randrange(1, 50) + b"\n", "upper": rng.random() < 0.1}))
     # refs
     def addref(name, x):
         if name not in [n for n, _ in s.refs]:
